@@ -6,7 +6,7 @@ from vlib.chrunner import Cond
 PROP = "C11"
 OPS = ["validate.tree(errs)", "validate.tree fail-fast", "validate.node both modes on every node", "evaluate.tree", "evaluate.node on every node",
        "metapype_io.to_json", "mp_io.to_json", "metapype_io.to_xml", "export.to_xml", "metapype_io.graph", "find_* / get_ancestry / child_index",
-       "Rule.child_insert_index / is_allowed_child", "Node.is_equal", "to_xml(skip_ns) / str / repr"]
+       "Rule.child_insert_index / is_allowed_child", "Node.is_equal", "to_xml(skip_ns)"]
 
 
 def run(tier, only=None):
@@ -23,7 +23,7 @@ def run(tier, only=None):
     conds.sort(key=lambda c: 0 if any(k in c.label for k in ("op=0 ", "op=1 ", "op=7 ", "op=8 ", "op=2 ")) else 1)
     rep.bounds = {"tree": "eml/dataset/{title, creator/{individualName/surName, userId}, contact/organizationName}, additionalMetadata/metadata/unitList "
                           "(unitList has its own namespace dict repeating the root's prefixes)",
-                  "symbolic": "one Optional[str] of length <= %d (ladder %r) as content / tail / attribute value / extras value of one of four nodes; "
+                  "symbolic": "one Optional[str] of length <= %d (ladder %r) over the class-representative alphabet {a 1 space < > & \" ' e-acute TAB LF} as content / tail / attribute value / extras value of one of four nodes; "
                               "presence of userId's directory attribute" % (ladder[0], ladder),
                   "operations": OPS}
     rep.extra["rule"] = "one CrossHair condition per (operation, symbolic field kind); non-trivial = confirmed over all paths"
